@@ -4,6 +4,7 @@ Werner states are mixtures of projectors onto the symmetric and permutation oper
 """
 
 import itertools
+import math
 
 import numpy as np
 
@@ -96,15 +97,12 @@ def werner(dim: int, alpha: float | list[float]) -> np.ndarray:
     # Multipartite Werner state.
     if isinstance(alpha, list):
         n_fac = len(alpha) + 1
-        # Compute the number of parties from `len(alpha)`.
-        n_var = n_fac
-        # We won't actually go all the way to `n_fac`.
-        for i in range(2, n_fac):
-            n_var = n_var // i
-            if n_var == i + 1:
-                break
-            if n_var < i:
-                raise ValueError("InvalidAlpha: The `alpha` vector must contain p!-1 entries for some integer p > 1.")
+        # Compute the number of parties from `len(alpha)`: the smallest `n_var` with `n_var! >= n_fac`.
+        n_var = 2
+        while math.factorial(n_var) < n_fac:
+            n_var += 1
+        if math.factorial(n_var) != n_fac:
+            raise ValueError("InvalidAlpha: The `alpha` vector must contain p!-1 entries for some integer p > 1.")
 
         # Done error checking and computing the number of parties
         # -- now compute the Werner state.
